@@ -1,5 +1,56 @@
-(* Properties.v — ONLY the property theorems: statement, [exact] of the lemma proved in
-   proofs/, nothing else.  tools/lib.py runs Print Assumptions on every theorem named Cxx_*. *)
-From Coq Require Import List Ascii String ZArith Bool.
+(* Properties.v — ONLY the property theorems: the statement, closed by [exact] of the lemma
+   proved in proofs/, nothing else.  tools/lib.py runs Print Assumptions on every theorem
+   named Cxx_* and counts them as the proof obligations of property Cxx. *)
+From Coq Require Import List Ascii String ZArith Bool Permutation.
 From Model Require Import Bytes Glob StaticRoute Spec Run.
+From Model.proofs Require C18.
 Import ListNotations.
+
+(* ------------------------------------------------------------------ C18 *)
+(* the executable matcher decides "'*' = any sequence, every other character = itself" *)
+Theorem C18_glob_correct : forall p s, glob p s = true <-> Glob p s.
+Proof. exact C18.glob_correct. Qed.
+
+(* fixed precedence: literal entry, else a matching wildcard entry, else default, else none —
+   for every table and every host *)
+Theorem C18_precedence : forall t host,
+  match find_route t host with
+  | Some it =>
+      alookup host t = Some it
+      \/ (alookup host t = None /\ exists d, In (d, it) t /\ Glob d host)
+      \/ (alookup host t = None /\ (forall d it', In (d, it') t -> ~ Glob d host)
+          /\ alookup (s2b "default") t = Some it)
+  | None => alookup host t = None /\ (forall d it', In (d, it') t -> ~ Glob d host)
+            /\ alookup (s2b "default") t = None
+  end.
+Proof. exact C18.find_route_spec. Qed.
+
+(* the same, against the independent judge of Spec.v that reads the configuration itself
+   (later entry for a dest replaces the earlier; invalid next hops are skipped) *)
+Theorem C18_judged : forall cfg host,
+  judge_C18 cfg host [option_map C18.ans_of (find_route (build_table cfg) host)] = true.
+Proof. exact C18.find_route_judged. Qed.
+
+(* stable answer: the result does not depend on the order in which the runtime enumerates
+   the Go map [m]; and the list model used everywhere else is that Go-shaped function *)
+Theorem C18_stable : forall cfg m host,
+  Permutation (build_table cfg) m ->
+  find_route_go m (map fst (build_table cfg)) host = find_route (build_table cfg) host.
+Proof. exact C18.find_route_go_build_table. Qed.
+
+(* the pre-fix map-order scan was not stable (computed witness) *)
+Theorem C18_legacy_unstable_refuted :
+  exists t o1 o2 host, Permutation o1 t /\ Permutation o2 t /\
+     find_route_legacy o1 t host <> find_route_legacy o2 t host.
+Proof. exact C18.find_route_legacy_unstable. Qed.
+
+(* host:port yields that port; no port yields 5060, or 5061 for tls in any letter case *)
+Theorem C18_port_default : forall proto dest h, ~ In ":"%char h ->
+  new_pre_route_item proto dest h =
+    Some {| ri_proto := proto; ri_dest := dest; ri_host := h;
+            ri_port := if equal_fold (s2b "tls") proto then 5061 else 5060 |}.
+Proof. exact C18.nexthop_no_port. Qed.
+Theorem C18_port_explicit : forall proto dest h p, (0 <= p <= int_max)%Z ->
+  new_pre_route_item proto dest (h ++ ":"%char :: itoa p) =
+    Some {| ri_proto := proto; ri_dest := dest; ri_host := h; ri_port := p |}.
+Proof. exact C18.nexthop_with_port. Qed.
